@@ -1,58 +1,41 @@
-(* C13, part 5: the HTTP abstraction check evaluated on the bundled database for the lines recorded as live
-   (Spec/ReachLists.v live_http_lines).  The evaluation is a closed vm_compute (several minutes). *)
+(* C13, part 5b: the HTTP abstraction check on the bundled database, collected from the 12 shards. *)
 From Coq Require Import List NArith Bool Lia.
 From Coq Require Import Strings.Byte.
 From HN Require Import Base.Bytes Model.SigAst Model.Match Model.Reach
   Spec.ScanSpec Spec.InstanceSpec Spec.DbLoadSpec Spec.BundledSpec Spec.Http1Grammar Spec.ConformSpec Spec.ReachSpec
-  Spec.ReachHttpSpec Spec.ReachLists Proofs.ReachHttp.
+  Spec.ReachHttpSpec Spec.ReachLists Proofs.ReachHttp Proofs.ReachHttpLines
+  Proofs.ReachHttpShard00 Proofs.ReachHttpShard01 Proofs.ReachHttpShard02 Proofs.ReachHttpShard03 Proofs.ReachHttpShard04 Proofs.ReachHttpShard05 Proofs.ReachHttpShard06 Proofs.ReachHttpShard07 Proofs.ReachHttpShard08 Proofs.ReachHttpShard09 Proofs.ReachHttpShard10 Proofs.ReachHttpShard11.
 Import ListNotations.
 Open Scope N_scope.
 
-(* generic in the database and in the naming of entries, so that the kernel never unfolds the bundled file *)
-Section LiveHttpLines.
-  Variable db : database.
-  Variable entry : hkind -> N -> option (N * N * http_sig).
-  Hypothesis entry_in : forall k line p, entry k line = Some p -> In p (positions (http_table db k)).
-
-  Definition http_line_ok (swq sws : list bytes) (line : N) : bool :=
-    forallb (fun k => match entry k line with
-                      | Some (li, si, s) => live_http_w k (http_table db k) li si s (match k with HReq => swq | HResp => sws end)
-                      | None => true end) [HReq; HResp].
-  Definition http_lines_ok (lines : list N) : bool :=
-    let swq := sw_all_of (http_table db HReq) in
-    let sws := sw_all_of (http_table db HResp) in
-    forallb (http_line_ok swq sws) lines.
-
-  Lemma http_lines_sound (lines : list N) :
-    http_lines_ok lines = true ->
-    forall (k : hkind) (line li si : N) (s : http_sig) (m : msg) (body : bytes),
-      In line lines -> entry k line = Some (li, si, s) ->
-      conforms_http k s m -> Http1Grammar.known m = false ->
-      exists f, reach_http db k (Http1Grammar.render m ++ body) = RMatch (http_table_id k) f
-                /\ admissible (http_table db k) (fun t => conforms_http_b k t m) li si f.
-  Proof.
-    intros OK k line li si s m body IN E C KN. unfold http_lines_ok in OK. cbv zeta in OK.
-    rewrite forallb_forall in OK. specialize (OK _ IN). unfold http_line_ok in OK. rewrite forallb_forall in OK.
-    assert (INK : In k [HReq; HResp]) by (destruct k; cbn; tauto).
-    specialize (OK k INK). cbv beta in OK. rewrite E in OK.
-    apply (reach_http_live db k li si s m body); try assumption.
-    - apply (entry_in k line). exact E.
-    - unfold live_http_b. destruct k; exact OK.
-  Qed.
-End LiveHttpLines.
-
-Lemma http_entry_in k line p : http_entry k line = Some p -> In p (positions (http_table bundled_db k)).
-Proof.
-  unfold http_entry, entry_on_line. destruct (index_of line (sig_lines (http_sec k))) as [j|]; [|discriminate].
-  apply nth_error_In.
-Qed.
-
-Lemma live_http_lines_ok : http_lines_ok bundled_db http_entry live_http_lines = true.
+Lemma shards_listed : http_shards = [nth 0 http_shards []; nth 1 http_shards []; nth 2 http_shards []; nth 3 http_shards []; nth 4 http_shards []; nth 5 http_shards []; nth 6 http_shards []; nth 7 http_shards []; nth 8 http_shards []; nth 9 http_shards []; nth 10 http_shards []; nth 11 http_shards []].
 Proof. vm_compute. reflexivity. Qed.
+
+Lemma all_shards_ok : forall l, In l http_shards -> http_lines_ok bundled_db http_entry l = true.
+Proof.
+  intros l IN. rewrite shards_listed in IN. cbn [In] in IN.
+  repeat (destruct IN as [E|IN]; [rewrite <- E|]); [.. | contradiction].
+  - exact ReachHttpShard00.shard_ok.
+  - exact ReachHttpShard01.shard_ok.
+  - exact ReachHttpShard02.shard_ok.
+  - exact ReachHttpShard03.shard_ok.
+  - exact ReachHttpShard04.shard_ok.
+  - exact ReachHttpShard05.shard_ok.
+  - exact ReachHttpShard06.shard_ok.
+  - exact ReachHttpShard07.shard_ok.
+  - exact ReachHttpShard08.shard_ok.
+  - exact ReachHttpShard09.shard_ok.
+  - exact ReachHttpShard10.shard_ok.
+  - exact ReachHttpShard11.shard_ok.
+Qed.
 
 Theorem bundled_http_live (k : hkind) (line li si : N) (s : http_sig) (m : msg) (body : bytes) :
   In line live_http_lines -> http_entry k line = Some (li, si, s) ->
   conforms_http k s m -> Http1Grammar.known m = false ->
   exists f, reach_http bundled_db k (Http1Grammar.render m ++ body) = RMatch (http_table_id k) f
             /\ admissible (http_table bundled_db k) (fun t => conforms_http_b k t m) li si f.
-Proof. exact (http_lines_sound bundled_db http_entry http_entry_in live_http_lines live_http_lines_ok k line li si s m body). Qed.
+Proof.
+  apply (http_lines_sound bundled_db http_entry http_entry_in live_http_lines).
+  intros ln IN. unfold live_http_lines in IN. apply in_concat in IN. destruct IN as [l [INL INLN]].
+  exact (lines_ok_in bundled_db http_entry l (all_shards_ok l INL) ln INLN).
+Qed.
